@@ -104,13 +104,19 @@ class TraceCorr:
     """Correspondence of one harness with one driver area, on generated + corpus op sequences."""
 
     def __init__(self, work, res, pid, harness, area, tier, name=None, gen_args=(), run_args=(),
-                 env=None, race=False, timeout=None):
+                 env=None, race=False, timeout=None, yielding=0, spec_only=False):
         self.work, self.res, self.pid = work, res, pid
         self.harness, self.area, self.tier = harness, area, tier
         self.name = name or harness
         self.gen_args, self.run_args = list(gen_args), list(run_args)
         self.env = dict(core.GOENV, VERIF_SEED=str(res.seed), **(env or {}))
         self.race = race
+        # schedule fuzzing: run the harness against the yield-instrumented twin of the scratch copy
+        # (harness/yieldinst) with VERIF_YIELD=<permille>; spec_only: judge by the specification only
+        self.yielding = int(yielding)
+        self.spec_only = spec_only
+        if self.yielding:
+            self.env["VERIF_YIELD"] = str(self.yielding)
         # a wedged implementation must not stall a check for long: bound every harness/driver process
         self.timeout = timeout or (600 if tier == "quick" else 3600)
         self.dir = os.path.join(work.dir, "corr-" + self.name)
@@ -154,7 +160,7 @@ class TraceCorr:
     def run(self, proofs_ok=True):
         res = self.res
         cname = "correspondence %s (harness %s vs driver area %s)" % (self.name, self.harness, self.area)
-        self.bin, blog = self.work.build(self.harness, race=self.race)
+        self.bin, blog = self.work.build(self.harness, race=self.race, yielding=bool(self.yielding))
         if self.bin is None:
             res.obligation(cname, False, log=blog[-3000:])
             res.violation("the correspondence harness no longer builds against the current tree (an API or "
@@ -204,7 +210,7 @@ class TraceCorr:
         cov["samples"] += trace_lines[:6] + trace_lines[n // 2:n // 2 + 3]
 
         verdict_m = os.path.join(self.dir, "verdict.model")
-        if self.work.blackbox:
+        if self.work.blackbox or self.spec_only:
             bad_m = ("skip", "")
         else:
             bad_m = self._verdict("model", trace, verdict_m) if proofs_ok or os.path.exists(core.DRIVER) else ("skip", "")
